@@ -373,5 +373,30 @@ func (ww *conversionVisitor) visitEnumNode(node *sourcewalk.EnumNode) {
 		eb.addValue(int32(idx+1), value)
 	}
 
+	// protoc and protodesc reject a proto3 enum holding two values (numbers
+	// always differ here) with the same canonical name, so the descriptor could
+	// neither be printed and parsed again nor built into an image.
+	// The index of a value is its number, idx+offset is the index of its option
+	// (-1 for the implicit zero value).
+	offset := len(node.Schema.Options) - len(optionsToSet) - 1
+	seen := map[string]*descriptorpb.EnumValueDescriptorProto{}
+	for idx, value := range eb.desc.Value {
+		canonical := canonicalEnumValueName(value.GetName(), node.Schema.Name)
+		existing, ok := seen[canonical]
+		if !ok {
+			seen[canonical] = value
+			continue
+		}
+		source := node.Source
+		if idx+offset >= 0 {
+			source = node.OptionSource(idx + offset)
+		}
+		if existing.GetName() == value.GetName() {
+			ww.addErrorf(source, "enum %s: option %s is defined more than once", node.Schema.Name, value.GetName())
+			continue
+		}
+		ww.addErrorf(source, "enum %s: option %s conflicts with option %s (the names differ only in case or underscores; protobuf requires the camel-case names of enum values to be distinct)", node.Schema.Name, value.GetName(), existing.GetName())
+	}
+
 	ww.parentContext.addEnum(eb)
 }
